@@ -1,17 +1,17 @@
 package main
 
 import (
-	"time"
-	"sort"
-	"os/exec"
-	"os"
-	"encoding/json"
-	"encoding/hex"
 	"bytes"
+	"encoding/hex"
+	"encoding/json"
 	"fmt"
 	"math/rand"
+	"os"
+	"os/exec"
+	"sort"
 	"strconv"
 	"strings"
+	"time"
 
 	"github.com/siglens/siglens/pkg/config"
 	eswriter "github.com/siglens/siglens/pkg/es/writer"
@@ -277,7 +277,6 @@ func execBulk(line string) Result {
 	return res
 }
 
-
 // ---- end to end: acknowledged == searchable (C15 "created iff that document becomes searchable exactly once")
 
 func genBulkE2E(r *rand.Rand, n int, tier string) []string {
@@ -301,6 +300,24 @@ func genBulkE2E(r *rand.Rand, n int, tier string) []string {
 		}
 		out = append(out, "bulke2e "+strings.Join(toks, " "))
 	}
+	// concurrent requests: K bodies for the SAME not-yet-existing index posted at the same moment
+	// (the first writes to a new index race on creating its segment store)
+	for c := 0; c < n/4+1; c++ {
+		k := 2 + r.Intn(7)
+		var bodies []string
+		for b := 0; b < k; b++ {
+			nd := 1 + r.Intn(5)
+			var toks []string
+			for d := 0; d < nd; d++ {
+				id := 1000000 + c*1000 + b*10 + d + 1
+				toks = append(toks, fmt.Sprintf("%d/%s", tmplIdx["index"], abstractLine(bulkTmpls[tmplIdx["index"]].mk(0), 0)))
+				toks = append(toks, fmt.Sprintf("%d/%s", tmplIdx["doc"], abstractLine(bulkTmpls[tmplIdx["doc"]].mk(id), id)))
+			}
+			toks = append(toks, fmt.Sprintf("%d/%s", tmplIdx["empty"], abstractLine("", 0)))
+			bodies = append(bodies, strings.Join(toks, " "))
+		}
+		out = append(out, "bulke2e "+strings.Join(bodies, " || "))
+	}
 	return out
 }
 
@@ -310,6 +327,9 @@ func execBulkE2E(line string) Result {
 		return Result{Out: "bad-op"}
 	}
 	bootEngine() // the abstraction functions below need the engine's config
+	if strings.Contains(line, " || ") {
+		return execBulkE2EPar(strings.Split(strings.TrimPrefix(line, "bulke2e "), " || "))
+	}
 	var lines []string
 	var ids []int
 	for _, tok := range f[1:] {
@@ -444,5 +464,115 @@ func execBulkE2E(line string) Result {
 		}
 		item++
 	}
+	return res
+}
+
+// K bodies posted concurrently to the real entry point; all acknowledged documents must be searchable once
+func execBulkE2EPar(bodies []string) Result {
+	var hexes []string
+	var allIDs [][]int
+	for _, b := range bodies {
+		var lines []string
+		var ids []int
+		for _, tok := range strings.Fields(b) {
+			p := strings.SplitN(tok, "/", 2)
+			if len(p) != 2 {
+				return Result{Out: "bad-op"}
+			}
+			ti, err := strconv.Atoi(p[0])
+			q := strings.Split(p[1], ":")
+			if err != nil || ti < 0 || ti >= len(bulkTmpls) || len(q) != 4 {
+				return Result{Out: "bad-op"}
+			}
+			id, _ := strconv.Atoi(q[3])
+			lines = append(lines, bulkTmpls[ti].mk(id))
+			if bulkTmpls[ti].name == "doc" {
+				ids = append(ids, id)
+			}
+		}
+		hexes = append(hexes, hex.EncodeToString([]byte(strings.Join(lines, "\n"))))
+		allIDs = append(allIDs, ids)
+	}
+	var in bytes.Buffer
+	fmt.Fprintf(&in, "bulkpar %s\nflush\nidx *\nq 0 5000 1500000000000 %d %s\n", strings.Join(hexes, " "), time.Now().UnixMilli()+3600000, hex.EncodeToString([]byte("*")))
+	cmd := exec.Command(os.Args[0], "e2eworker")
+	cmd.Stdin = &in
+	var stdout bytes.Buffer
+	cmd.Stdout = &stdout
+	cmd.Env = append(os.Environ(), "GOMEMLIMIT=2GiB", "GOMAXPROCS=8")
+	done := make(chan error, 1)
+	if err := cmd.Start(); err != nil {
+		return Result{Out: "worker-start-failed"}
+	}
+	go func() { done <- cmd.Wait() }()
+	select {
+	case err := <-done:
+		if err != nil {
+			return Result{Out: "worker-died", Fails: []PropFail{{Sig: "bulk-e2e/worker-crash", Msg: fmt.Sprintf("engine worker exited abnormally: %v", err)}}, Nontrivial: true}
+		}
+	case <-time.After(120 * time.Second):
+		cmd.Process.Kill()
+		<-done
+		return Result{Out: "worker-timeout", Fails: []PropFail{{Sig: "bulk-e2e/worker-timeout", Msg: "engine worker did not finish within 120 s"}}, Nontrivial: true}
+	}
+	var par struct {
+		Bulkpar []struct {
+			Items  []int `json:"items"`
+			Errors bool  `json:"errors"`
+		} `json:"bulkpar"`
+	}
+	var qResp map[string]interface{}
+	for _, l := range strings.Split(strings.TrimSpace(stdout.String()), "\n") {
+		if strings.HasPrefix(l, `{"bulkpar"`) {
+			json.Unmarshal([]byte(l), &par)
+		} else if strings.HasPrefix(l, "{") {
+			dec := json.NewDecoder(strings.NewReader(l))
+			dec.UseNumber()
+			dec.Decode(&qResp)
+		}
+	}
+	found := map[int]int{}
+	if recs, ok := qResp["recs"].([]interface{}); ok {
+		for _, r := range recs {
+			m, _ := r.(map[string]interface{})
+			if v, ok := m["_vid"].(json.Number); ok {
+				n, _ := strconv.Atoi(v.String())
+				found[n]++
+			}
+		}
+	}
+	res := Result{Nontrivial: true, Tags: []string{fmt.Sprintf("concurrent-bodies=%d", len(bodies))}}
+	var itemStrs []string
+	for bi, ids := range allIDs {
+		var sb strings.Builder
+		if bi < len(par.Bulkpar) {
+			for di, st := range par.Bulkpar[bi].Items {
+				if st == 201 {
+					sb.WriteByte('c')
+					if di < len(ids) && found[ids[di]] == 0 {
+						res.Fails = append(res.Fails, PropFail{Sig: "bulk-e2e/concurrent/acknowledged-but-not-searchable", Msg: fmt.Sprintf("request %d item %d was answered 201 but its document _vid=%d is not found after flush (%d concurrent requests to a new index)", bi, di, ids[di], len(bodies))})
+					}
+				} else {
+					sb.WriteString(fmt.Sprintf("?%d", st))
+				}
+			}
+		}
+		itemStrs = append(itemStrs, sb.String())
+	}
+	for v, c := range found {
+		if c > 1 {
+			res.Fails = append(res.Fails, PropFail{Sig: "bulk-e2e/concurrent/document-stored-twice", Msg: fmt.Sprintf("document _vid=%d is returned %d times", v, c)})
+		}
+	}
+	var vids []int
+	for v := range found {
+		vids = append(vids, v)
+	}
+	sort.Ints(vids)
+	var vs []string
+	for _, v := range vids {
+		vs = append(vs, strconv.Itoa(v))
+	}
+	res.Out = fmt.Sprintf("items=%s stored=%s", strings.Join(itemStrs, "|"), strings.Join(vs, ","))
 	return res
 }
